@@ -325,6 +325,9 @@ func (m *Machine) builtin(name string, args []Value, cc *ssa.CallCommon) Value {
 		m.chanClose(args[0])
 		return nil
 	case "delete":
+		if _, isNil := args[0].(NilPtr); isNil {
+			return nil
+		}
 		mo := args[0].(*MapObj)
 		i := m.mapFind(mo, args[1])
 		if i >= 0 {
@@ -433,6 +436,15 @@ func (m *Machine) intrinsic(name string, fn *ssa.Function, args []Value) (Value,
 			return nil, true
 		case "Native":
 			return False, true
+		case "LiveGoroutines":
+			sub := m.litString(args[0])
+			n := 0
+			for _, g := range m.gs {
+				if !g.done && g != m.cur && strings.Contains(g.fnName+" "+g.name, sub) {
+					n++
+				}
+			}
+			return BV(64, uint64(n)), true
 		case "MaxAlloc":
 			if m.maxAlloc == nil {
 				return BV(64, 0), true
